@@ -57,11 +57,17 @@ func (m *RWMutex) Lock() {
 	if x.teardown {
 		return
 	}
-	m.wwaiting++
-	if x.cfg.LockPoints || m.w || m.r != 0 {
-		x.yield(func() bool { return !m.w && m.r == 0 }, "wlock")
+	// The scheduling point stands for the instant before the call: the writer only counts as
+	// waiting (and holds back new readers, as sync.RWMutex does) once it has really found the
+	// lock taken.
+	if x.cfg.LockPoints {
+		x.yield(nil, "wlock")
 	}
-	m.wwaiting--
+	if m.w || m.r != 0 {
+		m.wwaiting++
+		x.yield(func() bool { return !m.w && m.r == 0 }, "wlock-wait")
+		m.wwaiting--
+	}
 	m.w = true
 }
 
